@@ -475,6 +475,18 @@ def check_case(case, ev):
         _filters(t, o, set(outs), emit_names, set(pure), set(vals))
         if eff_sel is not None and not set(o.values) <= set(eff_sel):
             raise Violation("c16.outside_selection", f"[{t}] keys {sorted(o.values)} outside the effective selection {eff_sel}")
+    # an explicit run-time "**" overrides the graph's default selection for EVERY outcome (completed, failed, paused): the result is
+    # that of the same graph without a default selection
+    if case["rt_kind"] == "star" and case["gsel"] and out2.status in ("completed", "failed", "paused"):
+        ctx4 = Ctx()
+        g4 = make_graph(ctx4, {"nodes": nodes}, "sync")
+        if entry:
+            g4 = g4.with_entrypoint(*entry)
+        out4, _w4 = _run(case["runner"], g4, vals, **{k_: v_ for k_, v_ in kw.items() if k_ != "select"})
+        if out4.status != out2.status or out4.values != out2.values:
+            raise Violation("c16.star_does_not_override_default", f"[{tag}] with the graph default select={case['gsel']} and run-time select='**' the {out2.status} result holds {sorted(out2.values or {})}; "
+                            f"the same graph without a default selection gives {out4.status} {sorted(out4.values or {})}", status=out2.status)
+        labels.add("star_overrides_default:" + out2.status)
     # value-level comparison on the fresh run (and the derived one must agree with it)
     if out.status != out2.status or (out.values != out2.values):
         raise Violation("c16.history_dependent", f"[{tag}] the graph derived after its parent had run gives {out.brief()}, a freshly built one gives {out2.brief()}", history=True)
